@@ -2487,12 +2487,13 @@ def interpolate_corner_points_string(
     icp_ecf = geodetic_to_ecf(icp)
 
     const = 1. / (rows * cols)
-    pattern = entry[numpy.array([(0, 2), (1, 2), (1, 3), (0, 3)], dtype=numpy.int64)]
+    # NB: the order is first row/first col, first row/last col, last row/last col, last row/first col
+    pattern = entry[numpy.array([(0, 2), (0, 3), (1, 3), (1, 2)], dtype=numpy.int64)]
     out = []
     for row, col in pattern:
         pt_array = const * numpy.sum(icp_ecf *
-                                     (numpy.array([rows - row, row, row, rows - row]) *
-                                      numpy.array([cols - col, cols - col, col, col]))[:, numpy.newaxis], axis=0)
+                                     (numpy.array([rows - row, rows - row, row, row]) *
+                                      numpy.array([cols - col, col, col, cols - col]))[:, numpy.newaxis], axis=0)
 
         pt = LatLonType.from_array(ecf_to_geodetic(pt_array)[:2])
         dms = pt.dms_format(frac_secs=False)
